@@ -63,6 +63,16 @@ def _install_bw_probe():
         return orig(self, amount)
     read._vt_probe = True
     cls.read = read
+    bcls = s3transfer.bandwidth.LeakyBucket
+    orig_consume = bcls.consume
+
+    def consume(self, amt, request_token):
+        r = orig_consume(self, amt, request_token)
+        sch = detsched.active()
+        if sch is not None and not sch.inline and sch.current is not None:
+            sch.emit('bw.charge', amt=amt)
+        return r
+    bcls.consume = consume
 
 
 class _TimeShim:
@@ -212,7 +222,8 @@ def build_manager(w):
     plan = _fault_plan(faults, scn)
     w.client = FakeClient(w.s3, sched, plan=plan, rcc=scn.get('rcc', 'when_required'),
                           body_read_size=scn.get('body_read_size'),
-                          stream_pattern=scn.get('stream_pattern', 'full'))
+                          stream_pattern=scn.get('stream_pattern', 'full'),
+                          http=scn.get('endpoint') == 'http')
     w.source_client = w.client
     fs_sites = [s for s in faults.get('sites', ()) if s.startswith('fs:')]
     special = []
